@@ -155,6 +155,8 @@ func verifHarness_T2_ArrayAsInteger() {
 			want = int64(verifF64frombits(payload))
 		}
 		verifAssert(vs[0] == want, "AsInteger returns the (truncated) value")
+		vs2, err2 := a.AsInteger()
+		verifAssert(err2 == nil && len(vs2) == 1 && vs2[0] == want, "a second AsInteger call on the same Array returns the same values (the accessor does not consume the array)")
 	} else {
 		verifAssert(err != nil, "AsInteger of an out-of-range value must be an error")
 	}
@@ -185,6 +187,8 @@ func verifHarness_T2_ArrayAsUint64() {
 			want = uint64(verifF64frombits(payload))
 		}
 		verifAssert(vs[0] == want, "AsUint64 returns the (truncated) value")
+		vs2, err2 := a.AsUint64()
+		verifAssert(err2 == nil && len(vs2) == 1 && vs2[0] == want, "a second AsUint64 call on the same Array returns the same values (the accessor does not consume the array)")
 	} else if dontcare {
 		verifAssert(err != nil || (len(vs) == 1 && vs[0] == 0), "AsUint64 of a float in (-1,0): error or 0")
 	} else {
@@ -206,5 +210,10 @@ func verifHarness_T2_ArrayAsFloat() {
 		verifAssert(vs[0] == float64(payload), "AsFloat of uint64 is the rounded value")
 	case 'd':
 		verifAssert(verifF64bits(vs[0]) == payload, "AsFloat of a float is the payload")
+	}
+	// the accessor must not consume the array: every later call on the same Array terminates without panic and returns the same values
+	for k := 0; k < 3; k++ {
+		vs2, err2 := a.AsFloat()
+		verifAssert(err2 == nil && len(vs2) == 1 && verifF64bits(vs2[0]) == verifF64bits(vs[0]), "a later AsFloat call on the same Array returns the same values")
 	}
 }
